@@ -14,6 +14,6 @@ func TestC07(t *testing.T) {
 	if gscen.ServeWorker(t, c.Plans) { // worker half of nrun.Main with a higher divergence-retry bound
 		return
 	}
-	gscen.CapQuickWorkers(12)
+	gscen.CapQuickWorkers(16)
 	nrun.Main(t, c)
 }
